@@ -977,7 +977,7 @@ class C19(Check):
         ba = rng.randrange(0, na + 1)
         bv = rng.randrange(0, nv + 1)
         # stratified over the negotiation points so that a quick run visits all of them
-        point = (i * 5 + rng.randrange(0, 2)) % 9 if rng.random() < 0.8 else rng.choice([5, 6, 6, 7])
+        point = ((i % 100000) * 5 + rng.randrange(0, 2)) % 9 if rng.random() < 0.8 else rng.choice([5, 6, 6, 7])
         mode = rng.random()
         if mode < 0.3:
             k = 0
@@ -997,10 +997,11 @@ class C19(Check):
         who = rng.choice([0, 1, 2, 2])
         twice = 1 if rng.random() < 0.3 else 0
         fault = rng.choice([0, 0, 1, 2, 3]) if point >= 7 else 0
-        return [policy, na, nv, ba, bv, dc, point, k, who, twice, fault]
+        # the last element only makes every generated case distinct (results are stashed per case)
+        return [policy, na, nv, ba, bv, dc, point, k, who, twice, fault, i]
 
     def extra_search_cases(self, rng, n):
-        return [self.gen_case(rng, i) for i in range(min(n, 120))]
+        return [self.gen_case(rng, 100000 + i) for i in range(min(n, 120))]
 
     def shrink_candidates(self, case):
         # smaller configurations first, then simpler trigger
